@@ -64,7 +64,11 @@ func init() {
 		Rule: "3-4 anchor histories per configuration + generated replica histories (2-4 real nodes, local create/update/delete of every field kind, " +
 			"deliveries of heads, old ancestors and duplicates by block-closure copy + VerifMerge, shuffled anti-entropy twice). " +
 			"non-trivial = a merge arrived at a frontier with >=2 heads or at equal height with a different commit; distinct by (configuration, hash-free DAG shape).",
-		Cases: func(seed uint64, tier string) []core.Case { return simCases(seed, tierN(tier, 800, 20000), 101, false) },
+		Cases: func(seed uint64, tier string) []core.Case {
+			cs := simCases(seed, tierN(tier, 800, 20000), 101, false)
+			// C01 only: Float counter increments that are not exactly representable, merged in different orders
+			return append(cs, core.MkCase("sim/anchor-float-counter-order/plain", 1, sim.Params{Config: "plain", Store: "badger", Replicas: 3, Recipe: "anchor-float-counter-order"}))
+		},
 		Run: func(ctx context.Context, c core.Case, r *core.Rec) {
 			sim.Run(ctx, c, r, sim.Oracles{Converge: true})
 		},
